@@ -34,6 +34,7 @@ type Obligation struct {
 	TimeS  float64
 	Model  map[string]string
 	Query  string
+	frames *frameReg
 }
 
 // EntryInfo names the entry-state symbols of the function, for replay.
@@ -94,6 +95,7 @@ type FnCtx struct {
 	splitPass bool
 	assumedClauses map[string]bool
 	entryInfo *EntryInfo
+	frames *frameReg
 }
 
 type retK func(s *State, rets []Val)
@@ -104,7 +106,7 @@ func (e *Engine) newFnCtx(fn *ssa.Function, ct *Contract) *FnCtx {
 		ordinals: map[ssa.Instruction]int{}, callOrd: map[ssa.Instruction]string{},
 		cellsByName: map[string][]*Cell{}, allCells: map[*ssa.Alloc]*Cell{}, maxPaths: 6000,
 		usedAssumed: map[string]bool{}, usedIntrinsics: map[string]bool{}, numbered: map[*ssa.Function]bool{},
-		calledKeys: map[string]bool{}, usedGlobals: map[string]bool{}, usedLemmas: map[string]bool{}, pdoms: map[*ssa.Function]map[*ssa.BasicBlock]*ssa.BasicBlock{}, assumedClauses: map[string]bool{}, inlineLoops: map[*ssa.BasicBlock]*loopInfo{}}
+		calledKeys: map[string]bool{}, usedGlobals: map[string]bool{}, usedLemmas: map[string]bool{}, pdoms: map[*ssa.Function]map[*ssa.BasicBlock]*ssa.BasicBlock{}, assumedClauses: map[string]bool{}, inlineLoops: map[*ssa.BasicBlock]*loopInfo{}, frames: newFrameReg()}
 	return fc
 }
 
@@ -295,11 +297,11 @@ func (fc *FnCtx) oblige(s *State, name, kind string, props []string, text string
 	}
 	if goal.isTrue() {
 		// still record it: a trivially true obligation is discharged by construction
-		fc.obls = append(fc.obls, &Obligation{Func: fc.key, Name: name, Kind: kind, Props: props, Text: text, Where: where,
+		fc.obls = append(fc.obls, &Obligation{frames: fc.frames, Func: fc.key, Name: name, Kind: kind, Props: props, Text: text, Where: where,
 			Goal: goal, Result: "unsat", Solver: "trivial", PathID: fc.npaths})
 		return
 	}
-	o := &Obligation{Func: fc.key, Name: name, Kind: kind, Props: props, Text: text, Where: where,
+	o := &Obligation{frames: fc.frames, Func: fc.key, Name: name, Kind: kind, Props: props, Text: text, Where: where,
 		Hyps: s.pc[:len(s.pc):len(s.pc)], Goal: goal, Trace: s.trace[:len(s.trace):len(s.trace)], PathID: fc.npaths, Entry: fc.entryInfo}
 	fc.obls = append(fc.obls, o)
 }
@@ -535,7 +537,7 @@ func (fc *FnCtx) globalAssumptions(s *State) {
 func (fc *FnCtx) atReturn(s *State, rets []Val) {
 	fc.npaths++
 	fc.normalExits++
-	fc.covers = append(fc.covers, &Obligation{Func: fc.key, Name: fmt.Sprintf("%s.cover.return#%d", fc.key, fc.normalExits), Kind: "cover",
+	fc.covers = append(fc.covers, &Obligation{frames: fc.frames, Func: fc.key, Name: fmt.Sprintf("%s.cover.return#%d", fc.key, fc.normalExits), Kind: "cover",
 		Hyps: s.pc[:len(s.pc):len(s.pc)], Goal: tFalse, Trace: s.trace, PathID: fc.npaths})
 	env := fc.entryEnv(s)
 	fc.bindResults(env, rets)
